@@ -1,2 +1,25 @@
+"""Proof part of C17: the three rechunk functions under contract, discharged by PyVC on the real source."""
+
+from __future__ import annotations
+
+
 def run(ctx):
-    return ""
+    import vlib.pyvc.prims as P
+    from ..contracts import rechunk
+    from ..pyvc.run import add_to_ctx
+
+    if not getattr(P.Prims, "_coh_models", False):
+        orig = P.Prims.register_defaults
+
+        def reg(self):
+            orig(self)
+            rechunk.coh_models(self)
+
+        P.Prims.register_defaults = reg
+        P.Prims._coh_models = True
+    n = 0
+    for c in (rechunk.OPT, rechunk.COH, rechunk.BLK):
+        ex, obs = add_to_ctx(ctx, c, rechunk.CALLEES)
+        n += len(obs)
+    ctx.assume("Python ints mathematical; numpy index arrays as (length, index->value) pairs; list.append as functional update")
+    return f"PyVC: {n} obligations generated from the AST of _get_optimal_chunks_for_groups, rechunk_for_cohorts and rechunk_for_blockwise (loop invariants, in-code asserts, index safety, postconditions)."
